@@ -34,6 +34,11 @@ type InclusiveRangeIterator struct {
 	stepNegative bool
 	step         IntegerValue
 	end          IntegerValue
+	zero         IntegerValue
+	// lastWithSuccessor is end - step, the last value whose successor is still within the range.
+	// It is only available (non-nil) if end and step have the same sign and end - step does, too,
+	// as it might not be representable in the element type otherwise.
+	lastWithSuccessor IntegerValue
 }
 
 var _ ValueIterator = &InclusiveRangeIterator{}
@@ -61,7 +66,29 @@ func NewInclusiveRangeIterator(
 		stepNegative: bool(stepNegative),
 		step:         stepValue,
 		end:          endValue,
+		zero:         zeroValue,
 	}
+
+	endNegative := endValue.Less(context, zeroValue)
+	if endNegative == stepNegative {
+		// No value with the sign of the step has a successor
+		// if the end is closer to zero than the step.
+		var endCloserToZero BoolValue
+		if stepNegative {
+			endCloserToZero = endValue.Greater(context, stepValue)
+		} else {
+			endCloserToZero = endValue.Less(context, stepValue)
+		}
+
+		if !endCloserToZero {
+			lastWithSuccessor, ok := endValue.Minus(context, stepValue).(IntegerValue)
+			if !ok {
+				panic(errors.NewUnreachableError())
+			}
+			i.lastWithSuccessor = lastWithSuccessor
+		}
+	}
+
 	i.next = i.validate(startValue, context)
 
 	return i
@@ -74,14 +101,57 @@ func (i *InclusiveRangeIterator) Next(context ValueIteratorContext) Value {
 	}
 
 	// Update the next value.
-	nextValueToReturn, ok := valueToReturn.Plus(context, i.step).(IntegerValue)
+	i.next = i.successor(valueToReturn, context)
+
+	return valueToReturn
+}
+
+// successor returns the element following the given element,
+// or nil if the given element is the last element of the range.
+//
+// The successor is only computed if it is representable in the element type,
+// i.e. the addition cannot overflow (e.g. for UInt8) or wrap around (e.g. for Word8).
+func (i *InclusiveRangeIterator) successor(
+	element IntegerValue,
+	context ValueIteratorContext,
+) IntegerValue {
+
+	elementNegative := bool(element.Less(context, i.zero))
+
+	if elementNegative == i.stepNegative {
+		// The element and the step have the same sign, so adding them might overflow.
+		// The end has the same sign, too, as the element is between the start and the end.
+		// Check if the successor is still within the range before computing it.
+
+		last := i.lastWithSuccessor
+		if last == nil {
+			return nil
+		}
+
+		if i.stepNegative && bool(element.Less(context, last)) {
+			return nil
+		} else if !i.stepNegative && bool(element.Greater(context, last)) {
+			return nil
+		}
+
+		successor, ok := element.Plus(context, i.step).(IntegerValue)
+		if !ok {
+			panic(errors.NewUnreachableError())
+		}
+
+		return successor
+	}
+
+	// The element and the step have different signs,
+	// so the step moves the element towards zero, and the addition cannot overflow.
+	// Check if the successor is still within the range after computing it.
+
+	successor, ok := element.Plus(context, i.step).(IntegerValue)
 	if !ok {
 		panic(errors.NewUnreachableError())
 	}
 
-	i.next = i.validate(nextValueToReturn, context)
-
-	return valueToReturn
+	return i.validate(successor, context)
 }
 
 func (i *InclusiveRangeIterator) validate(
